@@ -13,7 +13,8 @@ from .C19 import check_stream_reassembly
 
 IO_METHODS = {"read": 1, "write": 1, "close_read": 0, "close_write": 0, "wait": 0, "kill": 0}
 #: control code -> (operation on the sub io, reply)
-CONTROL = {"RIO_WAIT": ("wait", "result"), "RIO_KILL": ("kill", "None"), "RIO_REMOTEADDRESS": ("remoteaddress", "result"), "RIO_CLOSE_WRITE": ("close_write", "None")}
+# the request a ProxyIO method sends must make the forwarder perform that very operation on the sub io: (operation, reply)
+CONTROL = {"wait": ("wait", "result"), "kill": ("kill", "None"), "remoteaddress": ("remoteaddress", "result"), "close_write": ("close_write", "None")}
 
 
 def check_socket_halfclose(ctx: Ctx, oid: str) -> None:
@@ -58,28 +59,32 @@ def check(ctx: Ctx) -> None:
     SUBP = tuple(n + "." for n in sorted(SUBN))
 
     with ctx.obligation("C16.a", "control-codes") as ob:
+        # codes are identified by their *value* and by the ProxyIO method that sends them (their names, literal / named /
+        # enum spelling are irrelevant): sent[role] = (method, call, value)
         sent = {}
-        for m in repo.cls("ProxyIO").methods.values():
+        fctl = repo.func("gateway_io.ProxyIO._controll")
+        evp = [p_ for p_ in fctl.params() if p_ != "self"][0]
+        for m0 in repo.cls("ProxyIO").methods.values():
+            m = repo.func(m0.qualname)
             for c in repo.calls_in(m):
                 if callee_attr(c) == "_controll" and c.args:
-                    name = unparse(c.args[0]).split(".")[-1]
-                    sent[name] = (m, c)
-        # the codes are module-level constants or class attributes of ProxyIO
-        allconsts = dict(gio.consts)
-        allconsts.update({k: v for k, v in repo.cls("ProxyIO").consts.items() if k.startswith("RIO_")})
-        vals = {k: (repo.fold_in(c.args[0], m) if repo.fold_in(c.args[0], m) is not UNKNOWN else None) for k, (m, c) in sent.items()}
+                    v = repo.fold_in(c.args[0], m)
+                    sent[m.name] = (m, c, None if v is UNKNOWN else v)
+        vals = {k: v for k, (_m, _c, v) in sent.items()}
         ob.site(gio, None, "codes sent by ProxyIO", codes=vals)
         if len(set(vals.values())) != len(vals) or any(v is None for v in vals.values()):
             ob.violation(gio, None, f"control codes are not distinct constants: {vals}", construct=f"codes {vals}")
         if set(sent) != set(CONTROL):
-            ob.violation(gio, repo.cls("ProxyIO").node, f"ProxyIO sends {sorted(sent)}, expected {sorted(CONTROL)}", construct=f"sent {sorted(sent)}")
-        want_sender = {"RIO_WAIT": "wait", "RIO_KILL": "kill", "RIO_REMOTEADDRESS": "remoteaddress", "RIO_CLOSE_WRITE": "close_write"}
-        for code, (m, c) in sent.items():
-            if want_sender.get(code) != m.name:
-                ob.violation(m, c, f"ProxyIO.{m.name} sends {code}: the wrong operation is requested from the forwarder")
+            ob.violation(gio, repo.cls("ProxyIO").node, f"ProxyIO sends requests from {sorted(sent)}, expected {sorted(CONTROL)}", construct=f"sent {sorted(sent)}")
+        # _controll puts exactly the code it was given on the control channel
+        evctl = evaluator(repo, fctl)
+        for _pp, st_c in evctl.run(limit=2000):
+            snd = [e for e in st_c.events if e.kind == "call" and e.attr == "send"]
+            if len(snd) != 1 or snd[0].args[:1] not in ((("sym", evp),), (("pcall", "int", (("sym", evp),), ()),)):
+                ob.violation(fctl, fctl.node, "_controll does not send exactly the request code it was given")
+        byval = {v: role for role, v in vals.items() if v is not None}
         p = [x for x in fc.params() if x != "self"][0]
         DATA = ("sym", p)
-        byval = {v: k for k, v in allconsts.items() if k.startswith("RIO_")}
         evc = evaluator(repo, fc)
         arms: dict[str, list] = {}
 
